@@ -244,10 +244,10 @@ var c01Unary = []unOp{
 }
 
 func checkC01(w *core.W) {
+	// Both tiers build generation 0 from sets of <=2 members (3-member sets over the 36-member
+	// alphabet give ~20 000 initial states and 4e8 ordered pairs: not feasible); the thorough
+	// tier expands EVERY generation-1 state instead of one per (class, operator).
 	k := 2
-	if w.Thorough {
-		k = 3
-	}
 	t0 := time.Now()
 	sp := rsx.New(w, k)
 	sp.BuildGen0()
@@ -423,15 +423,10 @@ func checkC01(w *core.W) {
 	}
 }
 
-func roundsC01(tier string) int {
-	if tier == "thorough" {
-		return 3
-	}
-	return 2
-}
+func roundsC01(tier string) int { return 2 }
 
 var C01 = core.Check{
 	ID: "C01", Level: "model_checking", Fn: checkC01, Rounds: roundsC01, Watchdog: 0,
-	Rule:   "explicit-state search over reachable representations (states = distinct concrete representations by rel.VerifShape; generation 0 = every construction path of every set of <=2 (quick) / <=3 (thorough) members over the 34-member alphabet plus sugar literals; later generations = operator results within the size bound); transitions = | & &~ ~~ and the 12 subset comparisons on all ordered pairs of states, with/without/<:/!<: with every alphabet member, count/where/=>/^ per state; each transition's result is compared by denotation with the reference model and re-checked for self-consistency; non-trivial = both operands non-empty and sharing a member or an @ key (forced collision)",
+	Rule:   "explicit-state search over reachable representations (states = distinct concrete representations by rel.VerifShape; generation 0 = every construction path of every set of <=2 members over the 36-member alphabet plus sugar literals; generation 1 = operator results within the size bound: one state per (shape class, producing operator) in the quick tier, all of them in the thorough tier); transitions = | & &~ ~~ and the 12 subset comparisons on all ordered pairs of states, with/without/<:/!<: with every alphabet member, count/where/=>/^ per state; each transition's result is compared by denotation with the reference model and re-checked for self-consistency; non-trivial = both operands non-empty and sharing a member or an @ key (forced collision)",
 	Assume: []string{"reference model of finite sets (harness/model) is correct", "rel.VerifShape distinguishes representations (used only to deduplicate states, never as an oracle)", "values beyond the size bound are checked as results but not expanded"},
 }
